@@ -25,7 +25,7 @@ TREES = [1, (1,), (1, 2), [1, 2], (1, (2, 3)), {"a": 1, "b": 2}, {"a": (1, 2)}, 
          (1, None), None, (), ((1,),), [[1, 2], [3, 4]], {"a": {"a": 1, "b": 2}, "b": {"a": 3, "b": 4}},
          ((1, (2, 3)), (4, (5, 6))), (1, 2, 3), [(1, 2), (3, 4), (5, 6)], ({"a": 1, "b": 2}, {"a": 3, "b": 4}),
          (None, 1), [1], {"a": 1}, ((1, 2),), (((1, 2), (3, 4)), ((5, 6), (7, 8))), ([1, 2], [3, 4]), "leaf", ("x", "y")]
-FORMS = ["T", "S T", "T S", "T ...", "... T", "S T ...", "... S T", "T T", "... T T"]
+FORMS = ["T", "S T", "T S", "T ...", "... T", "S T ...", "... S T", "T T", "... T T", " T", "T ", "  S   T ", "T ... "]
 INT = ("py", "int")
 
 
@@ -50,6 +50,8 @@ def instances(tier, seed):
     leafless = [i for i, t in enumerate(TREES) if t in ((), None) or t == (None, 1)]
     empties = [TREES.index(())]
     forced = [(e, o) for e in empties for o in (2, 3, 5, 7)] + [(o, e) for e in empties for o in (2, 3, 5, 7)]
+    withnone = [i for i, t in enumerate(TREES) if t in ((1, None), (None, 1))]
+    forced += [(w, o) for w in withnone for o in (1, 2)] + [(2, w) for w in withnone]
     for ti, si in forced + pairs[:npairs]:
         for form in FORMS:
             out.append(("core", dict(kind="algebra", t=ti, s=si, form=form, bind_s=True)))
